@@ -59,3 +59,317 @@ Proof.
   pose proof (run_scrapped_mono fixed limit ls st e I Hs) as Hs2.
   pose proof (select_not_scrapped _ _ _ _ _ _ I2 H Hsel). fold st2 in Hs2. congruence.
 Qed.
+
+(* ------------------------------------------------------------------ *)
+(* Inv1: invariants of the CURRENT version of With (fixed = true)      *)
+(* ------------------------------------------------------------------ *)
+Record Inv1 (st : state) : Prop := {
+  i_L : forall n e t, lookup n (mmap st) = Some e -> e_writer (elems st e) = Some t ->
+          e_wheld (elems st e) = true ->
+          lookup n (written (txs st t)) = Some e /\ done (txs st t) = false;
+  i_K : forall t, done (txs st t) = true ->
+          match ph (txs st t) with PCreate w | PWait w _ => w_ro w = true | _ => True end;
+  i_M : forall t w, ph (txs st t) = PCreate w -> lookup (w_n w) (mmap st) = None;
+  i_K2 : forall t w e, ph (txs st t) = PWait w e -> has_key (w_n w) (written (txs st t)) = false
+}.
+
+Lemma commit_facts : forall st t bad, Inv0 st -> done (txs st t) = false ->
+  let W := written (txs st t) in
+  let st1 := commit_all bad st W in
+  (forall e, (exists n, lookup n W = Some e) ->
+      e_writer (elems st e) = Some t /\ e_wheld (elems st e) = true /\
+      e_writer (elems st1 e) = None /\ e_wheld (elems st1 e) = false) /\
+  (forall e, (forall n, lookup n W <> Some e) -> elems st1 e = elems st e) /\
+  (forall e, (exists n, lookup n W = Some e) \/ (forall n, lookup n W <> Some e)) /\
+  txs st1 = txs st /\ mlock st1 = mlock st /\ nexte st1 = nexte st.
+Proof.
+  intros st t bad I Hdone W st1.
+  destruct (commit_view st t bad I) as (V1 & V2 & Dec).
+  destruct (commit_all_frame bad (written (txs st t)) st) as (Fn & Fm & Fc & Ft).
+  repeat split; auto.
+  - destruct H as [n D]. apply (i_c4 _ I t n e D Hdone).
+  - destruct H as [n D]. apply (i_c4 _ I t n e D Hdone).
+  - destruct (V1 e H) as (_ & _ & _ & _ & a & b & _). auto.
+  - destruct (V1 e H) as (_ & _ & _ & _ & a & b & _). auto.
+Qed.
+
+Ltac done_false J t E :=
+  match goal with
+  | |- done (txs ?st t) = false =>
+      let Ed := fresh "Ed" in let Kk := fresh "Kk" in
+      destruct (done (txs st t)) eqn:Ed; auto; pose proof (i_K _ J t Ed) as Kk; rewrite E in Kk; simpl in Kk; congruence
+  end.
+
+Lemma step_L : forall limit st t st', Inv0 st -> Inv1 st -> step true limit st t = Some st' ->
+  forall n e t', lookup n (mmap st') = Some e -> e_writer (elems st' e) = Some t' ->
+          e_wheld (elems st' e) = true ->
+          lookup n (written (txs st' t')) = Some e /\ done (txs st' t') = false.
+Proof.
+  intros limit st t st' I J H. step_field I H.
+  all: try match goal with
+       | D : done (txs ?st ?t) = false |- context [commit_all ?bad ?st _] =>
+           destruct (commit_facts st t bad I D) as (C1 & C2 & Dec & Ct & Cm & Cn);
+           simpl; intros n' e' t' Hl Hw Hh; apply commit_all_map_sub in Hl; rewrite Ct;
+           destruct (Dec e') as [Dd|Dd];
+           [destruct (C1 e' Dd) as (_ & _ & X & _); congruence|];
+           rewrite (C2 e' Dd) in Hw, Hh; destruct (i_L _ J _ _ _ Hl Hw Hh) as (A & B);
+           unfold upd; destruct (Nat.eqb_spec t' t); [subst; exfalso; eapply Dd; eauto|auto]
+       end.
+  all: simpl; intros n' e' t' Hl Hw Hh; map_hyp Hl.
+  all: try match type of Hl with (if ?b then _ else _) = _ => destruct b eqn:Eb; [apply Nat.eqb_eq in Eb; inversion Hl; subst|] end.
+  all: simpl in Hw, Hh; upd_cases; simpl in Hw, Hh; try discriminate.
+  all: try (destruct (i_L _ J _ _ _ Hl Hw Hh) as (A & B)).
+  all: try (injection Hw as Hw; subst).
+  all: simpl; upd_cases; simpl; try rewrite lookup_set_key; try rewrite Nat.eqb_refl; try split; eauto; try congruence.
+  all: try (rewrite E3 in A; discriminate A).
+  all: try (done_false J t E).
+  all: try (rewrite Eb; try rewrite Nat.eqb_refl; auto).
+  all: try (destruct (i_a1 _ I _ _ Hl) as (Ha & Hb & Hc)).
+  all: try (exfalso; lia).
+  all: try match goal with |- (if ?a =? ?b then _ else _) = _ => destruct (Nat.eqb_spec a b) end; auto.
+  all: try congruence.
+  all: try (pose proof (i_M _ J t _ E) as Hm; subst; congruence).
+  all: try (pose proof (i_K2 _ J t _ _ E) as Hk; unfold has_key in Hk; match goal with e0 : w_n _ = _ |- _ => rewrite e0 in Hk end; rewrite A in Hk; discriminate).
+Qed.
+
+Lemma step_K : forall limit st t st', Inv0 st -> Inv1 st -> step true limit st t = Some st' ->
+  forall t', done (txs st' t') = true ->
+          match ph (txs st' t') with PCreate w | PWait w _ => w_ro w = true | _ => True end.
+Proof.
+  intros limit st t st' I J H. step_field I H.
+  all: try match goal with
+       | D : done (txs ?st ?t) = false |- context [commit_all ?bad ?st _] =>
+           destruct (commit_facts st t bad I D) as (C1 & C2 & Dec & Ct & Cm & Cn); simpl; rewrite Ct
+       end.
+  all: simpl; intros t' Hd; upd_cases; simpl in *; auto.
+  all: try (apply (i_K _ J); auto).
+  all: try (pose proof (i_K _ J t Hd) as Kk; rewrite E in Kk; simpl in Kk; auto).
+  all: try (rewrite Hd in *; simpl in *; destruct ro; simpl in *; congruence).
+  all: try congruence.
+Qed.
+
+Lemma step_M : forall fixed limit st t st', Inv0 st -> Inv1 st -> step fixed limit st t = Some st' ->
+  forall t' w, ph (txs st' t') = PCreate w -> lookup (w_n w) (mmap st') = None.
+Proof.
+  intros fixed limit st t st' I J H. step_field I H.
+  all: repeat match goal with Hf : free (mlock _) = true |- _ => apply free_none in Hf end.
+  all: try match goal with
+       | D : done (txs ?st ?t) = false |- context [commit_all ?bad ?st _] =>
+           destruct (commit_facts st t bad I D) as (C1 & C2 & Dec & Ct & Cm & Cn); simpl; rewrite Ct
+       end.
+  all: simpl; intros t' w' Hp; upd_cases; simpl in Hp; try discriminate Hp.
+  all: try (pose proof (i_m2 _ I _ _ Hp) as Hm; congruence).
+  all: try (injection Hp as Hp; subst; simpl; auto).
+  all: try (apply (i_M _ J _ _ Hp)).
+Qed.
+
+Lemma step_K2 : forall fixed limit st t st', Inv0 st -> Inv1 st -> step fixed limit st t = Some st' ->
+  forall t' w e, ph (txs st' t') = PWait w e -> has_key (w_n w) (written (txs st' t')) = false.
+Proof.
+  intros fixed limit st t st' I J H. step_field I H.
+  all: try match goal with
+       | D : done (txs ?st ?t) = false |- context [commit_all ?bad ?st _] =>
+           destruct (commit_facts st t bad I D) as (C1 & C2 & Dec & Ct & Cm & Cn); simpl; rewrite Ct
+       end.
+  all: simpl; intros t' w' e' Hp; upd_cases; simpl in Hp; try discriminate Hp.
+  all: try (injection Hp as Hp; subst; simpl; auto).
+  all: try (apply (i_K2 _ J _ _ _ Hp)).
+  all: try congruence.
+Qed.
+
+Lemma step_Inv1 : forall limit st t st', Inv0 st -> Inv1 st -> step true limit st t = Some st' -> Inv1 st'.
+Proof.
+  intros limit st t st' I J H. constructor.
+  - eapply step_L; eauto.
+  - eapply step_K; eauto.
+  - eapply step_M; eauto.
+  - eapply step_K2; eauto.
+Qed.
+Lemma del_Inv1 : forall st n, Inv0 st -> Inv1 st -> mlock st = None -> Inv1 (set_map st (remove_key n (mmap st))).
+Proof.
+  intros st n I J Hm. constructor; simpl.
+  - intros n' e t Hl. apply lookup_remove_some in Hl. destruct Hl as [Hl _]. now apply (i_L _ J).
+  - apply (i_K _ J).
+  - intros t w Hp. pose proof (i_m2 _ I _ _ Hp). congruence.
+  - apply (i_K2 _ J).
+Qed.
+Lemma next_Inv1 : forall limit st l, Inv0 st -> Inv1 st -> Inv1 (next true limit st l).
+Proof.
+  intros limit st l I J. unfold next. destruct (lstep true limit st l) eqn:E; auto.
+  destruct l as [t|n]; simpl in E.
+  - eapply step_Inv1; eauto.
+  - destruct (free (mlock st)) eqn:F; [|discriminate]. injection E as <-. apply del_Inv1; auto. now apply free_none.
+Qed.
+Lemma init_Inv1 : forall progs, Inv1 (init progs).
+Proof.
+  intros progs. constructor; intros; try rewrite init_ph in *; try rewrite init_written in *; simpl in *;
+    try discriminate; auto.
+Qed.
+Lemma run_Inv01 : forall limit ls st, Inv0 st -> Inv1 st ->
+  Inv0 (run true limit ls st) /\ Inv1 (run true limit ls st).
+Proof.
+  induction ls; simpl; intros st I J; auto.
+  apply IHls; [now apply next_Inv0|now apply next_Inv1].
+Qed.
+
+(* ------------------------------------------------------------------ *)
+(* locks are released                                                  *)
+(* ------------------------------------------------------------------ *)
+Lemma thm_locks_released : forall limit progs ls,
+  let st := run true limit ls (init progs) in
+  all_done st -> locks_released st.
+Proof.
+  intros limit progs ls st Hall.
+  destruct (run_Inv01 limit ls (init progs) (init_Inv0 progs) (init_Inv1 progs)) as [I J]. fold st in I, J.
+  split.
+  - destruct (mlock st) as [t|] eqn:Hm; auto.
+    destruct (i_m1 _ I _ Hm) as (w & Hp). destruct (Hall t) as [[Hph _] _]. congruence.
+  - intros n e Hl. split.
+    + destruct (e_writer (elems st e)) as [t|] eqn:Hw; auto.
+      destruct (Hall t) as [[Hph _] Hd].
+      destruct (e_wheld (elems st e)) eqn:Hh.
+      * destruct (i_L _ J _ _ _ Hl Hw Hh). congruence.
+      * destruct (i_c2 _ I _ _ Hw Hh) as (w & Hp). congruence.
+    + destruct (e_readers (elems st e)) as [|t r] eqn:Hr; auto.
+      assert (Hin : In t (e_readers (elems st e))) by (rewrite Hr; simpl; auto).
+      pose proof (i_b1 _ I _ _ Hin) as Hb. destruct (Hall t) as [[Hph _] _]. rewrite Hph in Hb. discriminate.
+Qed.
+
+
+(* ------------------------------------------------------------------ *)
+(* progress under disjoint writers                                     *)
+(* ------------------------------------------------------------------ *)
+Definition InvQ (st : state) : Prop :=
+  forall e t' t w, e_writer (elems st e) = Some t' -> done (txs st t') = true ->
+    ph (txs st t) = PLock w e -> w_ro w = false -> done (txs st t) = false -> False.
+
+Lemma writer_names : forall st e t', Inv0 st -> e_writer (elems st e) = Some t' ->
+  (exists w, ph (txs st t') = PWait w e /\ e_name (elems st e) = w_n w /\ w_ro w = false) \/
+  has_key (e_name (elems st e)) (written (txs st t')) = true.
+Proof.
+  intros st e t' I Hw. destruct (e_wheld (elems st e)) eqn:Hh.
+  - right. now apply (i_c5 _ I).
+  - left. destruct (i_c2 _ I _ _ Hw Hh) as (w & Hp). exists w. split; auto.
+    destruct (i_a2 _ I t' e) as (_ & _ & w' & Hw' & Hn); [rewrite Hp; reflexivity|].
+    rewrite Hp in Hw'. simpl in Hw'. injection Hw' as <-. split; auto.
+    now destruct (i_c1 _ I _ _ _ Hp) as (_ & _ & ?).
+Qed.
+
+Lemma registered_writer_live : forall st n e t', Inv0 st -> Inv1 st ->
+  lookup n (mmap st) = Some e -> e_writer (elems st e) = Some t' -> done (txs st t') = false.
+Proof.
+  intros st n e t' I J Hl Hw. destruct (e_wheld (elems st e)) eqn:Hh.
+  - now destruct (i_L _ J _ _ _ Hl Hw Hh).
+  - destruct (i_c2 _ I _ _ Hw Hh) as (w & Hp). destruct (i_c1 _ I _ _ _ Hp) as (_ & _ & Hr).
+    destruct (done (txs st t')) eqn:Hd; auto. pose proof (i_K _ J _ Hd) as Kk. rewrite Hp in Kk. congruence.
+Qed.
+
+Lemma Q_commit_arg : forall st s tq e w, Inv0 st -> disjoint_writers st ->
+  ph (txs st s) = PIdle -> done (txs st s) = false -> e_writer (elems st e) = Some s ->
+  ph (txs st tq) = PLock w e -> w_ro w = false -> done (txs st tq) = false -> tq <> s -> False.
+Proof.
+  intros st s tq e w I Dj Hs Hds Hw Hp Hro Hdq Hne.
+  destruct (i_a2 _ I tq e) as (_ & _ & w' & Hw' & Hn); [rewrite Hp; reflexivity|].
+  rewrite Hp in Hw'. simpl in Hw'. injection Hw' as <-.
+  destruct (writer_names st e s I Hw) as [(w2 & Hp2 & _)|Hk]; [congruence|].
+  apply Hne. apply (Dj tq s (w_n w)).
+  - split; auto. right. rewrite Hp. simpl. now rewrite Hro.
+  - split; auto. left. now rewrite <- Hn.
+Qed.
+
+Lemma step_Q : forall limit st s st', Inv0 st -> Inv1 st -> InvQ st -> disjoint_writers st ->
+  step true limit st s = Some st' -> InvQ st'.
+Proof.
+  intros limit st s st' I J Q Dj H. unfold InvQ. step_field I H.
+  all: try match goal with
+       | D : done (txs ?st ?t) = false |- context [commit_all ?bad ?st _] =>
+           destruct (commit_facts st t bad I D) as (C1 & C2 & Dec & Ct & Cm & Cn); simpl; rewrite Ct
+       end.
+  all: simpl; intros e' tq' tq w' Hw Hd Hp Hro Hnd.
+  all: upd_cases; simpl in *; try discriminate; try congruence.
+  all: try match goal with Hw : e_writer (elems (commit_all _ _ _) ?e) = _ |- _ => destruct (Dec e) as [Dd|Dd]; [destruct (C1 e Dd) as (_ & _ & X & _); congruence| rewrite (C2 e Dd) in Hw] end.
+  all: try solve [eapply Q; eauto].
+  all: try match goal with Hl : lookup _ (mmap ?st) = Some ?e, Hw : e_writer (elems ?st ?e) = Some ?t' |- _ => pose proof (registered_writer_live _ _ _ _ I J Hl Hw); congruence end.
+  all: try solve [eapply (Q_commit_arg st s); eauto].
+  all: try (pose proof (i_K _ J _ Hd) as Kk; rewrite E in Kk; simpl in Kk; congruence).
+Qed.
+
+Lemma next_Q : forall limit st l, Inv0 st -> Inv1 st -> InvQ st -> disjoint_writers st ->
+  InvQ (next true limit st l).
+Proof.
+  intros limit st l I J Q Dj. unfold next. destruct (lstep true limit st l) eqn:E; auto.
+  destruct l as [t|n]; simpl in E.
+  - eapply step_Q; eauto.
+  - destruct (free (mlock st)); [|discriminate]. injection E as <-. exact Q.
+Qed.
+
+Lemma run_always_Q : forall limit ls st, Inv0 st -> Inv1 st -> InvQ st ->
+  always disjoint_writers true limit ls st ->
+  let st' := run true limit ls st in Inv0 st' /\ Inv1 st' /\ InvQ st' /\ disjoint_writers st'.
+Proof.
+  induction ls; simpl; intros st I J Q A; auto.
+  destruct A as [Dj A]. apply IHls; auto.
+  - now apply next_Inv0.
+  - now apply next_Inv1.
+  - now apply next_Q.
+Qed.
+
+Ltac enabled Hp :=
+  unfold step; rewrite Hp;
+  repeat match goal with
+         | |- context [match ?x with _ => _ end] => let E := fresh "En" in destruct x eqn:E
+         | |- context [if ?x then _ else _] => let E := fresh "En" in destruct x eqn:E
+         end; try (eexists; reflexivity); simpl in *; try discriminate; try congruence.
+
+Lemma progress_state : forall limit st, Inv0 st -> Inv1 st -> InvQ st -> disjoint_writers st ->
+  (exists t, ~ finished (txs st t)) -> exists t st', step true limit st t = Some st'.
+Proof.
+  intros limit st I J Q Dj [t0 Hnf].
+  destruct (mlock st) as [h|] eqn:Hm.
+  { destruct (i_m1 _ I _ Hm) as (w & Hp). exists h. enabled Hp. }
+  (* the manager mutex is free *)
+  assert (Hfree : free (mlock st) = true) by (rewrite Hm; reflexivity).
+  destruct (ph (txs st t0)) eqn:Hp.
+  - (* PIdle *) exists t0. unfold finished in Hnf. enabled Hp. all: try (exfalso; apply Hnf; auto).
+  - pose proof (i_m2 _ I _ _ Hp). congruence.
+  - (* PLock *) destruct (w_ro w) eqn:Hro; [exists t0; enabled Hp|].
+    destruct (done (txs st t0)) eqn:Hd; [exists t0; enabled Hp|].
+    destruct (has_key (w_n w) (written (txs st t0))) eqn:Hk; [exists t0; enabled Hp|].
+    destruct (e_writer (elems st e)) as [t'|] eqn:Hw; [|exists t0; enabled Hp].
+    exfalso.
+    destruct (i_a2 _ I t0 e) as (_ & _ & w' & Hw' & Hn); [rewrite Hp; reflexivity|].
+    rewrite Hp in Hw'. simpl in Hw'. injection Hw' as <-.
+    assert (Ha0 : active_writer st t0 (w_n w)).
+    { split; auto. right. rewrite Hp. simpl. now rewrite Hro. }
+    destruct (done (txs st t')) eqn:Hd'.
+    + eapply Q; eauto.
+    + destruct (writer_names st e t' I Hw) as [(w2 & Hp2 & Hn2 & Hr2)|Hk2].
+      * assert (t0 = t').
+        { apply (Dj t0 t' (w_n w)); auto. split; auto. right. rewrite Hp2. simpl. rewrite Hr2. congruence. }
+        subst. congruence.
+      * assert (t0 = t').
+        { apply (Dj t0 t' (w_n w)); auto. split; auto. left. congruence. }
+        subst. congruence.
+  - (* PWait *) destruct (e_readers (elems st e)) as [|r rs] eqn:Hr; [exists t0; enabled Hp|].
+    assert (Hin : In r (e_readers (elems st e))) by (rewrite Hr; simpl; auto).
+    pose proof (i_b1 _ I _ _ Hin) as Hb. exists r.
+    destruct (ph (txs st r)) eqn:Hpr; simpl in Hb; try discriminate Hb; enabled Hpr.
+  - exists t0. enabled Hp.
+  - exists t0. enabled Hp.
+  - exists t0. enabled Hp.
+  - exists t0. enabled Hp.
+  - exists t0. enabled Hp.
+Qed.
+
+Lemma init_Q : forall progs, InvQ (init progs).
+Proof. intros progs e t' t w Hw. simpl in Hw. discriminate. Qed.
+
+Lemma thm_progress : forall limit progs ls,
+  always disjoint_writers true limit ls (init progs) ->
+  let st := run true limit ls (init progs) in
+  (exists t, ~ finished (txs st t)) -> exists t st', step true limit st t = Some st'.
+Proof.
+  intros limit progs ls A st Hex.
+  destruct (run_always_Q limit ls (init progs) (init_Inv0 progs) (init_Inv1 progs) (init_Q progs) A) as (I & J & Q & Dj).
+  eapply progress_state; eauto.
+Qed.
